@@ -63,8 +63,15 @@ def loc_ops(rng, nops, base=None, rules=True, clear_prob=0.0):
             ops.append({"op": "remRule", "id": rng.choice(IDS[4:])})
         elif r < 0.90:
             ops.append({"op": "enableRule", "id": rng.choice(IDS[4:]), "enable": rng.random() < 0.5})
-        elif r < 0.93:
+        elif r < 0.91:
             ops.append({"op": "listRules", "inherited": False})
+        elif r < 0.92:
+            # a scheduled rule (no `when`; the schedule lies far in the future) ...
+            t = {"t": "echo"}
+            ops.append({"op": "addRule", "id": "sr", "rule": {"schedule": rng.choice(["+1h", "0 0 0 1 1 * 2099"]), "action": {"code": "Env.bindings", "verif_tmpl": t}}})
+        elif r < 0.93:
+            # ... evaluated the way the cron service does it: by an event that names it
+            ops.append({"op": "event", "event": {"trigger!": rng.choice(["sr", "sr", IDS[4]])}})
         else:
             ev = dict(d)
             if rng.random() < 0.3:
